@@ -281,3 +281,12 @@ Theorem manifold_sculpting_refuted :
 Proof.
   exists 5, 3, 2, 3, (repeat [0; 1; 2] 5). witness_tac.
 Qed.
+
+(* ---------------------------------------------------------------- find_neighbors *)
+Theorem find_neighbors_model_ok brute N k : 0 <= k -> find_neighbors_model brute N k = Ok.
+Proof.
+  intros Hk. unfold find_neighbors_model, brute_force_query, tree_query.
+  apply forZ_ok. intros i Hi.
+  destruct (N - 1 <? k) eqn:E; [apply Z.ltb_lt in E|apply Z.ltb_ge in E];
+    destruct brute; repeat ok_step; lia.
+Qed.
